@@ -327,8 +327,7 @@ Proof.
   destruct (rpgn =? 126996); [eapply send_product_info_nr; eassumption|].
   destruct (rpgn =? 126998); [eapply send_config_info_nr; eassumption|].
   destruct (match c_iso_handler (r_cfg r0) with Some acc => _ | None => _ end) as [[|]|].
-  - injection H as <- <-. eapply NR_then; [|apply NR_refl]. change [EvNote (1000000 + rpgn)] with ([] ++ [EvNote (1000000 + rpgn)]).
-    eapply NR_trans; [exact A|apply NR_note; reflexivity].
+  - injection H as <- <-. eapply NR_after; [exact A|apply NR_note; reflexivity].
   - destruct ad; [|injection H as <- <-; exact A].
     destruct (rsend r0 _ i) as [[r1 ev1] ok1] eqn:E1. injection H as <- <-. eapply rsend_nr; [exact E1|exact Hi|exact A].
   - injection H as <- <-. exact A.
@@ -351,3 +350,146 @@ Proof.
   - cbn [negb andb] in E0. apply Z.eqb_neq in E0. eapply respond_iso_request_nr; [exact H|].
     destruct (find_source_device_ge r (s_dst s)); [contradiction|assumption].
 Qed.
+
+(* ---------- everything parametrised by the group function reaction ---------- *)
+Section WithGF.
+Variable gf : rnode -> slot -> rnode * list event.
+Hypothesis Hgf : gf_ok gf.
+
+Lemma handle_system_nr r s r2 ev : handle_system gf r s = (r2, ev) -> NR (rn r) ev (rn r2).
+Proof.
+  unfold handle_system. intros H. cbv zeta in H.
+  destruct (_ || _)%bool; [injection H as <- <-; apply NR_refl|].
+  destruct (_ && _)%bool; [|injection H as <- <-; apply NR_refl].
+  destruct (s_pgn s =? 59904); [eapply handle_iso_request_nr; exact H|].
+  destruct (s_pgn s =? 60928); [eapply handle_claim_nr; exact H|].
+  destruct (s_pgn s =? 65240); [eapply handle_commanded_nr; exact H|].
+  destruct (s_pgn s =? 126208); [|injection H as <- <-; apply NR_refl].
+  intros C. exact (Hgf _ _ _ _ H C).
+Qed.
+
+Lemma send_pending_info_dev_nr r i r2 ev : send_pending_info_dev r i = (r2, ev) -> 0 <= i -> NR (rn r) ev (rn r2).
+Proof.
+  unfold send_pending_info_dev. intros H Hi. cbv zeta in H.
+  destruct (send_pending_tp (chk_dev r i) i) as [r1 ev1] eqn:E1.
+  assert (A1: NR (rn r) ev1 (rn r1)) by (eapply send_pending_tp_nr; [exact E1|exact Hi|nr]).
+  destruct (let '(r', ev) := _ in _) as [r2' ev2] eqn:E2 in H.
+  assert (A2: NR (rn r1) ev2 (rn r2')).
+  { destruct (sched_is_time _ _ (x_pend_claim _)); [|injection E2 as <- <-; apply NR_refl].
+    destruct (rsend_claim r1 255 i) as [r' ev'] eqn:E. injection E2 as <- <-. rewrite rn_set_pending.
+    eapply rsend_claim_nr; [exact E|apply NR_refl]. }
+  clear E2.
+  destruct (if sched_is_time _ _ (x_pend_prod _) then _ else _) as [r3 ev3] eqn:E3 in H.
+  assert (A3: NR (rn r2') ev3 (rn r3)).
+  { destruct (sched_is_time _ _ (x_pend_prod _)); [|injection E3 as <- <-; apply NR_refl].
+    eapply send_product_info_nr; [exact E3|exact Hi|apply NR_refl]. }
+  clear E3.
+  destruct (if sched_is_time _ _ (x_pend_conf _) then _ else _) as [r4 ev4] eqn:E4 in H.
+  assert (A4: NR (rn r3) ev4 (rn r4)).
+  { destruct (sched_is_time _ _ (x_pend_conf _)); [|injection E4 as <- <-; apply NR_refl].
+    eapply send_config_info_nr; [exact E4|exact Hi|apply NR_refl]. }
+  injection H as <- <-.
+  eapply NR_trans; [exact A1|]. eapply NR_trans; [exact A2|]. eapply NR_trans; [exact A3|exact A4].
+Qed.
+
+Lemma send_pending_info_nr : forall k r i r2 ev, send_pending_info k r i = (r2, ev) -> 0 <= i -> NR (rn r) ev (rn r2).
+Proof.
+  induction k as [|k IH]; intros r i r2 ev H Hi; cbn [send_pending_info] in H.
+  - injection H as <- <-. apply NR_refl.
+  - destruct (if has_pending r i then _ else _) as [r1 ev1] eqn:E1. destruct (send_pending_info k r1 (i+1)) as [r2' ev2] eqn:E2.
+    injection H as <- <-. eapply NR_trans; [|eapply IH; [exact E2|lia]].
+    destruct (has_pending r i); [eapply send_pending_info_dev_nr; eassumption|injection E1 as <- <-; apply NR_refl].
+Qed.
+
+Lemma send_heartbeat_dev_nr r i r2 ev : send_heartbeat_dev r i = (r2, ev) -> 0 <= i -> NR (rn r) ev (rn r2).
+Proof.
+  unfold send_heartbeat_dev. intros H Hi. cbv zeta in H.
+  pose proof (claim_started_spec (rn (chk_dev r i)) i) as (_ & QC & _).
+  destruct (claim_started (rn (chk_dev r i)) i) as [n1 started]. cbn [fst] in QC. rewrite rn_chk_dev in QC.
+  set (r0 := with_rn (chk_dev r i) n1) in *.
+  assert (A: NR (rn r) [] (rn r0)) by (apply NR_quiet; exact QC).
+  destruct started; [injection H as <- <-; exact A|].
+  destruct (millis64 r0) as [ra t1] eqn:M1.
+  destruct (ss_is_time t1 _); [|injection H as <- <-; aux_facts; rewrite F; exact A].
+  destruct (millis64 ra) as [rb t2] eqn:M2.
+  destruct (rsend _ _ i) as [[r3 ev3] ok] eqn:E. injection H as <- <-. aux_facts. cbn [rn with_devx].
+  eapply rsend_nr; [exact E|exact Hi|]. cbn [rn with_devx]. rewrite F0, F. exact A.
+Qed.
+
+Lemma send_heartbeat_nr : forall k r i r2 ev, send_heartbeat k r i = (r2, ev) -> 0 <= i -> NR (rn r) ev (rn r2).
+Proof.
+  induction k as [|k IH]; intros r i r2 ev H Hi; cbn [send_heartbeat] in H.
+  - injection H as <- <-. apply NR_refl.
+  - destruct (send_heartbeat_dev r i) as [r1 ev1] eqn:E1. destruct (send_heartbeat k r1 (i+1)) as [r2' ev2] eqn:E2.
+    injection H as <- <-. eapply NR_trans; [eapply send_heartbeat_dev_nr; eassumption|eapply IH; [exact E2|lia]].
+Qed.
+
+Lemma start_claim_all_nr : forall k r i r2 ev, start_claim_all k r i = (r2, ev) -> 0 <= i -> NR (rn r) ev (rn r2).
+Proof.
+  induction k as [|k IH]; intros r i r2 ev H Hi; cbn [start_claim_all] in H.
+  - injection H as <- <-. apply NR_refl.
+  - cbv zeta in H. destruct (rstart_claim _ i) as [r1 ev1] eqn:E1. destruct (start_claim_all k r1 (i+1)) as [r2' ev2] eqn:E2.
+    injection H as <- <-. eapply NR_trans; [|eapply IH; [exact E2|lia]].
+    eapply rstart_claim_nr; [exact E1|exact Hi|]. destruct (_ =? _); [apply od_next_address|apply od_refl].
+Qed.
+
+Lemma open_step_nr r r2 ev b : open_step r = (r2, ev, b) -> NR (rn r) ev (rn r2).
+Proof.
+  unfold open_step. intros H. cbv zeta in H.
+  destruct (n_open (rn r) =? 3) eqn:E3; [injection H as <- <- <-; apply NR_refl|]. apply Z.eqb_neq in E3.
+  set (r0 := if n_open (rn r) =? 0 then with_open r 1 (r_open_sched r) else r) in *.
+  assert (A0: NR (rn r) [] (rn r0)).
+  { subst r0. destruct (_ =? 0); [apply NR_quiet, qc_with_open; intros C; contradiction|apply NR_refl]. }
+  assert (N0: n_open (rn r0) <> 3).
+  { subst r0. destruct (n_open (rn r) =? 0); [cbn; lia|exact E3]. }
+  destruct (n_open (rn r0) =? 1).
+  - destruct (negb _); injection H as <- <- <-; [exact A0|].
+    eapply NR_then; [exact A0|apply NR_quiet, qc_with_open; intros C; contradiction].
+  - destruct (sched_is_time _ _ _).
+    + destruct (start_claim_all _ _ 0) as [ra eva] eqn:ES. destruct (millis64 ra) as [rc ts] eqn:M. injection H as <- <- <-.
+      aux_facts. rewrite rn_set_heartbeat_all. cbn [rn with_sync]. rewrite F.
+      eapply NR_trans; [|apply NR_note; reflexivity].
+      eapply NR_after; [exact A0|]. eapply NR_after; [apply NR_quiet, (qc_with_open r0 3 (r_open_sched r0)); reflexivity|].
+      eapply start_claim_all_nr; [exact ES|lia].
+    + injection H as <- <- <-. cbn [rn with_rxq]. exact A0.
+Qed.
+
+Lemma rflush_nr r r2 ev : rflush r = (r2, ev) -> NR (rn r) ev (rn r2).
+Proof.
+  unfold rflush. intros H. destruct (flush _ _) as [[[q d] ev1] ok] eqn:E. injection H as <- <-. cbn [rn with_rn].
+  intros _. exists []. eapply R_flush. exact E.
+Qed.
+
+Lemma rx_loop_nr : forall k r r2 ev, rx_loop gf k r = (r2, ev) -> NR (rn r) ev (rn r2).
+Proof.
+  induction k as [|k IH]; intros r r2 ev H; cbn [rx_loop] in H.
+  - injection H as <- <-. apply NR_refl.
+  - destruct (r_q r) as [|f rest]; [injection H as <- <-; apply NR_refl|].
+    destruct (rx_frame (with_rxq r rest) f) as [[r1 ev1] idx] eqn:E1.
+    pose proof (rx_frame_nr _ _ _ _ _ E1) as A1. cbn [rn with_rxq] in A1.
+    destruct (idx <? nslots r1).
+    + destruct (handle_system gf (chk_slot r1 idx) _) as [r2' ev2] eqn:E2.
+      pose proof (handle_system_nr _ _ _ _ E2) as A2. rewrite rn_chk_slot in A2.
+      destruct (rx_loop gf k _) as [r4 ev4] eqn:E4. injection H as <- <-.
+      pose proof (IH _ _ _ E4) as A4. rewrite rn_set_slot in A4.
+      eapply NR_trans; [exact A1|]. eapply NR_trans; [exact A2|]. eapply NR_trans; [apply NR_note; reflexivity|exact A4].
+    + destruct (rx_loop gf k r1) as [r4 ev4] eqn:E4. injection H as <- <-.
+      eapply NR_trans; [exact A1|eapply IH; exact E4].
+Qed.
+
+Lemma poll_nr r r2 ev : poll gf r = (r2, ev) -> NR (rn r) ev (rn r2).
+Proof.
+  unfold poll. intros H.
+  destruct (if n_open (rn r) =? 3 then (r, [], true) else open_step r) as [[r1 ev0] opened] eqn:E0.
+  assert (A0: NR (rn r) ev0 (rn r1)).
+  { destruct (n_open (rn r) =? 3); [injection E0 as <- <- <-; apply NR_refl|eapply open_step_nr; exact E0]. }
+  destruct (negb _); [injection H as <- <-; exact A0|].
+  destruct (rflush r1) as [ra ev1] eqn:E1. destruct (send_pending_info _ ra 0) as [rb ev2] eqn:E2.
+  destruct (rx_loop gf _ rb) as [rc ev3] eqn:E3.
+  destruct (if is_active_node (rn rc) then _ else _) as [rd ev4] eqn:E4. injection H as <- <-.
+  eapply NR_trans; [exact A0|]. eapply NR_trans; [eapply rflush_nr; exact E1|].
+  eapply NR_trans; [eapply send_pending_info_nr; [exact E2|lia]|]. eapply NR_trans; [eapply rx_loop_nr; exact E3|].
+  destruct (is_active_node (rn rc)); [eapply send_heartbeat_nr; [exact E4|lia]|injection E4 as <- <-; apply NR_refl].
+Qed.
+
+End WithGF.
